@@ -25,7 +25,7 @@ def ibm_from_float(x):
     return ibm_word(s, E, int(M))
 
 
-def header(names, start, stop, spacing, desc=b'VERIF BIT PASS'):
+def header(names, start, stop, spacing, desc=b'VERIF BIT PASS', unused=b'    '):
     assert 1 <= len(names) <= 20
     b = b'\x00\x02\x00\x00'
     b += desc[:72].ljust(72, b' ')
@@ -35,7 +35,7 @@ def header(names, start, stop, spacing, desc=b'VERIF BIT PASS'):
     b += struct.pack('>H', len(names)) + b'\x00\x00'
     for n in names:
         b += n.encode('ascii')[:4].ljust(4, b' ')
-    b += b'    ' * (20 - len(names))
+    b += unused[:4].ljust(4, b' ') * (20 - len(names))          # what the unused name slots hold is nobody's business
     for v in (start, stop, spacing, 0.0, 16.0):
         b += ibm_from_float(v)
     b += b'MN239J 1'
@@ -59,7 +59,7 @@ def render(passes):
         n += 1
 
     for p in passes:
-        marker(0, header(p['names'], p['start'], p['stop'], p['spacing']))
+        marker(0, header(p['names'], p['start'], p['stop'], p['spacing'], unused=p.get('unused', b'    ')))
         for blk in p['blocks']:
             payload = b''.join(b''.join(ch) for ch in blk)
             marker(0, payload)
